@@ -124,6 +124,7 @@ class Ctx:
         else:
             cmd += ["-XX:+UseSerialGC", "-Xmx6g"]
         cmd.append("-Xss" + (stack or "64m"))
+        cmd.append("-Djava.io.tmpdir=" + meta)   # SANY unpacks its standard modules there
         cmd += ["-cp", "/opt/veriftools/tla/tla2tools.jar:/opt/veriftools/tla/CommunityModules-deps.jar",
                 "tlc2.TLC", "-metadir", meta, "-config", cfg, "-noGenerateSpecTE"]
         cmd += ["-workers", str(workers or 8)]
